@@ -309,6 +309,19 @@ Fixpoint lex_loop (fuel : nat) (buf : bytes) (pos : N) (acc : list ltoken) : rou
 
 Definition lex_model (script : bytes) : routcome (list ltoken) := lex_loop (length script) script 0 [].
 
+(* ================================================================== depth guard *)
+(* ExtData::tree_height (miniscript/types/extra_props.rs): 0 for every leaf, self + 1 for the
+   seven wrappers, 1 + max of ALL children for and_v / and_b / or_b / or_d / or_c / or_i / andor /
+   thresh.  Miniscript::from_ast rejects tree_height > MAX_RECURSION_DEPTH and validate() rejects
+   tree_height > max_recursive_depth: the guard is only as good as this number. *)
+Definition DEPTH_LIMIT : N := 402.
+Fixpoint nmax_list (l : list N) : N := match l with [] => 0 | x :: r => N.max x (nmax_list r) end.
+Definition tree_height_model (child_heights : list N) : N :=
+  match child_heights with [] => 0 | _ => 1 + nmax_list child_heights end.
+Definition depth_guard (tree_height : N) : bool := tree_height <=? DEPTH_LIMIT.
+
+(* the same on the generic trees of the iterator section: height of a tree computed bottom-up
+   with the constructor formula (leaf = 0) *)
 (* ================================================================== iter/tree.rs *)
 Inductive rtree := RNode (label : N) (children : list rtree).
 
@@ -425,3 +438,8 @@ Definition post_order (t : rtree) : routcome (list post_yield) :=
 (* recursive specification of post-order labels *)
 Fixpoint postorder (t : rtree) : list N :=
   match t with RNode x cs => (fix go (l : list rtree) : list N := match l with [] => [] | c :: r => postorder c ++ go r end) cs ++ [x] end.
+
+
+(* tree_height of a whole tree when every constructor uses [tree_height_model] *)
+Fixpoint lib_height (t : rtree) : N :=
+  match t with RNode _ cs => tree_height_model ((fix go (l : list rtree) : list N := match l with [] => [] | c :: r => lib_height c :: go r end) cs) end.
